@@ -69,10 +69,10 @@ func findTCP(c *Ctx, rule string) *tcpAnchors {
 	return a
 }
 
-// sameConn: v derives (through conversions only) from the same origin as the handler's client connection.
+// sameConn: v derives (through conversions, helper parameters and results) from the same origin as the handler's client connection.
 func (a *tcpAnchors) sameConn(c *Ctx, v ssa.Value) bool {
-	base := c.P.Origins(a.conn, eng.Plain)
-	for _, o := range c.P.Origins(v, eng.Plain) {
+	base := c.P.Origins(a.conn, deepF)
+	for _, o := range c.P.Origins(v, deepF) {
 		for _, b := range base {
 			if o == b {
 				return true
@@ -82,45 +82,22 @@ func (a *tcpAnchors) sameConn(c *Ctx, v ssa.Value) bool {
 	return false
 }
 
-// drainQ matches a drain of the connection conn (a value predicate) at a call instruction of fn: a direct io.Copy(io.Discard, conn), or a
-// call to a repo function that drains the parameter conn is passed as, before any denied effect.
+// drainQ matches a drain of the connection (a value predicate): a direct io.Copy(io.Discard, conn), lifted through helper
+// functions every path of which drains before any denied effect.
 func drainQ(c *Ctx, isConn func(ssa.Value) bool) func(ssa.Instruction) bool {
-	return func(ins ssa.Instruction) bool {
-		if dc, ok := isDrainCall(ins); ok {
-			return isConn(dc.Call.Args[1])
-		}
-		call, ok := ins.(*ssa.Call)
-		if !ok {
+	direct := func(ins ssa.Instruction) bool {
+		dc, ok := isDrainCall(ins)
+		return ok && isConn(dc.Call.Args[1])
+	}
+	deniedStop := func(x ssa.Instruction) bool {
+		cl, ok := x.(ssa.CallInstruction)
+		if !ok || direct(x) {
 			return false
 		}
-		for _, f := range repoCallees(c, call) {
-			for i, arg := range call.Call.Args {
-				if !isConn(arg) || i >= len(f.Params) {
-					continue
-				}
-				pa := f.Params[i]
-				inner := func(x ssa.Instruction) bool {
-					dc, ok := isDrainCall(x)
-					return ok && c.P.AnyFrom(dc.Call.Args[1], eng.Plain, func(v ssa.Value) bool { return v == ssa.Value(pa) }) &&
-						func() bool { g, _ := c.P.AllFrom(dc.Call.Args[1], eng.Plain, func(v ssa.Value) bool { return v == ssa.Value(pa) }); return g }()
-				}
-				deniedStop := func(x ssa.Instruction) bool {
-					cl, ok := x.(ssa.CallInstruction)
-					if !ok {
-						return false
-					}
-					e, _ := classifyEffect(c, cl)
-					return e == effDenied
-				}
-				okDrain, _ := eng.MustPass(eng.Point{B: f.Blocks[0]}, inner)
-				okOrder, _ := eng.MustPassBefore(eng.Point{B: f.Blocks[0]}, inner, deniedStop)
-				if okDrain && okOrder {
-					return true
-				}
-			}
-		}
-		return false
+		e, _ := classifyEffect(c, cl)
+		return e == effDenied
 	}
+	return liftMust(c, direct, deniedStop)
 }
 
 // C01.SILENT (shared by C06, C07, C08)
@@ -166,7 +143,7 @@ func ruleSilent(c *Ctx, a *tcpAnchors) {
 			c.CheckAt("SILENT", key, cl, true, "effect-free||")
 		}
 	}
-	c.Floor("SILENT", "pre-authentication calls in the handler", n, 3)
+	c.Floor("SILENT", "pre-authentication calls in the handler", n, 1)
 
 	// (b) the authenticator region
 	fs, fns := regionEffects(c, a.auths)
@@ -498,29 +475,57 @@ func ruleKeyBytes(c *Ctx) {
 
 type authModel struct {
 	fn      *ssa.Function
+	R       *Region
 	search  *ssa.Call // returns (*CipherEntry, reader, salt, dur, err)
 	entry   ssa.Value
 	reader  ssa.Value
 	salt    ssa.Value
 	succ    eng.EdgeSet
-	fail    eng.EdgeSet
-	okRets  []*ssa.Return // returns with nil error
-	badRets []*ssa.Return
+	okRets  []*ssa.Return // returns of fn with nil error
+	adds    []*ssa.Call
+	isSrvs  []*ssa.Call
+	newRs   []*ssa.Call
+	newWs   []*ssa.Call
+	setGens []*ssa.Call
 }
 
 func modelAuth(c *Ctx, f *ssa.Function, rule string) *authModel {
 	m := &authModel{fn: f}
-	for _, cl := range eng.Calls(f) {
+	searchFns := map[*ssa.Function]bool{}
+	for _, sl := range findSearchLoops(c) {
+		searchFns[sl.fn] = true
+	}
+	isFinder := func(h *ssa.Function) bool {
+		// the key finder and below are not part of the authenticator's own logic
+		res := h.Signature.Results()
+		return searchFns[h] || (res.Len() >= 2 && eng.TypeName(res.At(0).Type()) == "service.CipherEntry")
+	}
+	m.R = c.NewRegion(f, 3, func(h *ssa.Function) bool {
+		return eng.PkgPathOf(h) != eng.Mod+"/service" || isFinder(h) || h.Signature.Recv() != nil && strings.Contains(eng.TypeName(h.Signature.Recv().Type()), "SaltGenerator") || strings.HasSuffix(eng.TypeName(recvType(h)), "ReplayCache") || strings.HasSuffix(eng.TypeName(recvType(h)), "ipherList")
+	})
+	for _, cl := range m.R.Calls() {
 		call, ok := cl.(*ssa.Call)
 		if !ok {
 			continue
 		}
 		res := call.Call.Signature().Results()
-		if res.Len() >= 2 && eng.TypeName(res.At(0).Type()) == "service.CipherEntry" {
+		if res.Len() >= 2 && eng.TypeName(res.At(0).Type()) == "service.CipherEntry" && m.search == nil {
 			m.search = call
 		}
+		switch {
+		case eng.CalleeName(&call.Call) == "(*service.ReplayCache).Add":
+			m.adds = append(m.adds, call)
+		case eng.MethodName(&call.Call) == "IsServerSalt":
+			m.isSrvs = append(m.isSrvs, call)
+		case eng.CalleeName(&call.Call) == "sdk/shadowsocks.NewReader":
+			m.newRs = append(m.newRs, call)
+		case eng.CalleeName(&call.Call) == "sdk/shadowsocks.NewWriter":
+			m.newWs = append(m.newWs, call)
+		case eng.CalleeName(&call.Call) == "(*sdk/shadowsocks.Writer).SetSaltGenerator":
+			m.setGens = append(m.setGens, call)
+		}
 	}
-	if m.search == nil {
+	if m.search == nil || m.search.Parent() != f {
 		c.Undecided(rule, "anchor:"+short(f)+":key-search-call", c.P.Pos(f.Pos()), "the authenticator makes no call returning a *CipherEntry")
 		return nil
 	}
@@ -540,12 +545,10 @@ func modelAuth(c *Ctx, f *ssa.Function, rule string) *authModel {
 			m.salt = ex
 		}
 	}
-	m.succ, m.fail = c.P.SuccessEdges(f, []ssa.CallInstruction{m.search}, res.Len()-1)
+	m.succ, _ = c.P.SuccessEdges(f, []ssa.CallInstruction{m.search}, res.Len()-1)
 	for _, r := range eng.Returns(f) {
 		if eng.IsZeroValue(r.Results[len(r.Results)-1]) {
 			m.okRets = append(m.okRets, r)
-		} else {
-			m.badRets = append(m.badRets, r)
 		}
 	}
 	if m.entry == nil || m.salt == nil || len(m.succ) == 0 || len(m.okRets) == 0 {
@@ -555,12 +558,33 @@ func modelAuth(c *Ctx, f *ssa.Function, rule string) *authModel {
 	return m
 }
 
-// fromEntryField: v is (only) loads of CipherEntry.<field> whose base is the matched entry.
+func recvType(f *ssa.Function) types.Type {
+	if f.Signature.Recv() != nil {
+		return f.Signature.Recv().Type()
+	}
+	return types.Typ[types.Invalid]
+}
+
+// fromEntryField: v is (only) loads of CipherEntry.<field> whose base is the matched entry (through helper parameters).
 func (m *authModel) fromEntryField(c *Ctx, v ssa.Value, field string) (bool, []ssa.Value) {
-	return c.P.AllFrom(v, eng.Plain, func(x ssa.Value) bool {
+	return c.P.AllFrom(v, deepF, func(x ssa.Value) bool {
 		t, f, base, ok := eng.FieldLoad(x)
-		return ok && t == "service.CipherEntry" && f == field && c.P.Resolve(base) == m.entry
+		if !ok || t != "service.CipherEntry" || f != field {
+			return false
+		}
+		g, _ := c.P.AllFrom(base, deepF, func(b ssa.Value) bool { return b == m.entry })
+		return g
 	})
+}
+
+func (m *authModel) isSalt(c *Ctx, v ssa.Value) bool {
+	g, _ := c.P.AllFrom(v, deepF, func(x ssa.Value) bool { return x == m.salt })
+	return g
+}
+
+func isSuccessReturn(ins ssa.Instruction) bool {
+	r, ok := ins.(*ssa.Return)
+	return ok && len(r.Results) > 0 && eng.IsZeroValue(r.Results[len(r.Results)-1])
 }
 
 // C01.COHERENT
@@ -574,52 +598,46 @@ func ruleCoherent(c *Ctx, a *tcpAnchors) {
 		key := short(f)
 		n := 0
 		for _, r := range m.okRets {
-			// id: the phi may include "" on the entry == nil edge; require every non-constant origin to be entry.ID
-			ok, bad := p.AllFrom(r.Results[0], eng.Plain, func(x ssa.Value) bool {
+			ok, bad := p.AllFrom(r.Results[0], deepF, func(x ssa.Value) bool {
 				if _, isC := x.(*ssa.Const); isC {
 					s, _ := eng.ConstString(x)
 					return s == ""
 				}
-				t, fl, base, isF := eng.FieldLoad(x)
-				return isF && t == "service.CipherEntry" && fl == "ID" && p.Resolve(base) == m.entry
+				g, _ := m.fromEntryField(c, x, "ID")
+				return g
 			})
 			n++
 			c.CheckAt("COHERENT", key+":returned-id-is-matched-entry", r, ok, "the access key id returned on success is not the ID of the entry that decrypted the handshake: "+valsStr(p, bad))
 		}
-		for _, cl := range eng.Calls(f) {
-			call, ok := cl.(*ssa.Call)
-			if !ok {
-				continue
-			}
-			switch eng.CalleeName(&call.Call) {
-			case "sdk/shadowsocks.NewReader", "sdk/shadowsocks.NewWriter":
-				n++
-				ok, bad := m.fromEntryField(c, call.Call.Args[1], "CryptoKey")
-				c.CheckAt("COHERENT", key+":"+eng.CalleeName(&call.Call)+":key-of-matched-entry", call, ok, "the stream cipher is created with a key other than the matched entry's: "+valsStr(p, bad))
-				if eng.CalleeName(&call.Call) == "sdk/shadowsocks.NewReader" && m.reader != nil {
-					okR, _ := p.AllFrom(call.Call.Args[0], eng.Plain, func(x ssa.Value) bool { return x == m.reader })
-					c.CheckAt("COHERENT", key+":NewReader:reader-from-key-search", call, okR, "the decrypting reader does not read from the reader returned by the key search (which replays the bytes consumed for the search)")
-				}
-			case "(*service.ReplayCache).Add":
-				n++
-				okID, _ := m.fromEntryField(c, call.Call.Args[1], "ID")
-				okSalt, _ := p.AllFrom(call.Call.Args[2], eng.OriginOpts{ThroughConvert: true}, func(x ssa.Value) bool { return x == m.salt })
-				c.CheckAt("COHERENT", key+":replay-add:id-and-salt", call, okID && okSalt, "the replay history is not keyed by (matched entry ID, client salt of this handshake)")
-			case "(*sdk/shadowsocks.Writer).SetSaltGenerator":
-				n++
-				ok, bad := m.fromEntryField(c, call.Call.Args[1], "SaltGenerator")
-				c.CheckAt("COHERENT", key+":salt-generator-of-matched-entry", call, ok, "the response writer gets a salt generator other than the matched entry's: "+valsStr(p, bad))
-			}
-			if eng.MethodName(&call.Call) == "IsServerSalt" {
-				n++
-				ok, _ := m.fromEntryField(c, eng.Receiver(&call.Call), "SaltGenerator")
-				okS, _ := p.AllFrom(eng.Arg(&call.Call, 0), eng.OriginOpts{ThroughConvert: true}, func(x ssa.Value) bool { return x == m.salt })
-				c.CheckAt("COHERENT", key+":server-salt-test:generator-and-salt", call, ok && okS, "the reflected-salt test does not use the matched entry's generator on this handshake's salt")
+		for _, call := range append(append([]*ssa.Call{}, m.newRs...), m.newWs...) {
+			n++
+			ok, bad := m.fromEntryField(c, call.Call.Args[1], "CryptoKey")
+			c.CheckAt("COHERENT", key+":"+eng.CalleeName(&call.Call)+":key-of-matched-entry", call, ok, "the stream cipher is created with a key other than the matched entry's: "+valsStr(p, bad))
+		}
+		for _, call := range m.newRs {
+			if m.reader != nil {
+				okR, _ := p.AllFrom(call.Call.Args[0], deepF, func(x ssa.Value) bool { return x == m.reader })
+				c.CheckAt("COHERENT", key+":NewReader:reader-from-key-search", call, okR, "the decrypting reader does not read from the reader returned by the key search (which replays the bytes consumed for the search)")
 			}
 		}
-		c.Floor("COHERENT", "uses of the matched entry in "+key, n, 6)
+		for _, call := range m.adds {
+			n++
+			okID, _ := m.fromEntryField(c, call.Call.Args[1], "ID")
+			c.CheckAt("COHERENT", key+":replay-add:id-and-salt", call, okID && m.isSalt(c, call.Call.Args[2]), "the replay history is not keyed by (matched entry ID, client salt of this handshake)")
+		}
+		for _, call := range m.setGens {
+			n++
+			ok, bad := m.fromEntryField(c, call.Call.Args[1], "SaltGenerator")
+			c.CheckAt("COHERENT", key+":salt-generator-of-matched-entry", call, ok, "the response writer gets a salt generator other than the matched entry's: "+valsStr(p, bad))
+		}
+		for _, call := range m.isSrvs {
+			n++
+			ok, _ := m.fromEntryField(c, eng.Receiver(&call.Call), "SaltGenerator")
+			c.CheckAt("COHERENT", key+":server-salt-test:generator-and-salt", call, ok && m.isSalt(c, eng.Arg(&call.Call, 0)), "the reflected-salt test does not use the matched entry's generator on this handshake's salt")
+		}
+		c.Floor("COHERENT", "uses of the matched entry in the authenticator region of "+key, n, 6)
 	}
-	// in the key finder: salt = firstBytes[:entry.CryptoKey.SaltSize()] of the found entry; MarkUsed gets the found element
+	// in the key finder: MarkUsed gets the found element, with the same client IP as the snapshot
 	for _, f := range c.P.FnsIn("service") {
 		var mark *ssa.Call
 		for _, cl := range eng.Calls(f) {
@@ -630,23 +648,14 @@ func ruleCoherent(c *Ctx, a *tcpAnchors) {
 		if mark == nil || c.P.IsTestSupport(f) {
 			continue
 		}
-		// the element marked derives from the result of the search (a call in f) or from the loop element
 		elem := eng.Arg(&mark.Call, 0)
-		okElem := p.AnyFrom(elem, eng.OriginOpts{ThroughConvert: true, ThroughIndex: true}, func(x ssa.Value) bool {
+		okElem := p.AnyFrom(elem, eng.OriginOpts{ThroughConvert: true, ThroughIndex: true, Interproc: true}, func(x ssa.Value) bool {
 			if cc, _, ok := eng.AsResult(x); ok {
-				for _, sl := range findSearchLoops(c) {
-					for _, callee := range repoCallees(c, cc) {
-						if callee == sl.fn {
-							return true
-						}
-					}
-				}
 				return eng.MethodName(&cc.Call) == "SnapshotForClientIP"
 			}
 			return false
 		})
-		c.CheckAt("COHERENT", short(f)+":marks-the-matched-element", mark, okElem, "the element moved to the front / stamped with the client IP is not the element that matched")
-		// same client IP for snapshot and mark
+		c.CheckAt("COHERENT", short(f)+":marks-the-matched-element", mark, okElem, "the element moved to the front / stamped with the client IP is not an element of the snapshot that was searched")
 		for _, cl := range eng.Calls(f) {
 			if call, ok := cl.(*ssa.Call); ok && eng.MethodName(&call.Call) == "SnapshotForClientIP" {
 				same := p.Resolve(eng.Arg(&call.Call, 0)) == p.Resolve(eng.Arg(&mark.Call, 1))
@@ -665,85 +674,68 @@ func ruleGates(c *Ctx, a *tcpAnchors, which string) {
 			continue
 		}
 		key := short(f)
-		var add, isSrv, newW, setGen *ssa.Call
-		for _, cl := range eng.Calls(f) {
-			call, ok := cl.(*ssa.Call)
-			if !ok {
-				continue
-			}
-			switch {
-			case eng.CalleeName(&call.Call) == "(*service.ReplayCache).Add":
-				add = call
-			case eng.MethodName(&call.Call) == "IsServerSalt":
-				isSrv = call
-			case eng.CalleeName(&call.Call) == "sdk/shadowsocks.NewWriter":
-				newW = call
-			case eng.CalleeName(&call.Call) == "(*sdk/shadowsocks.Writer).SetSaltGenerator":
-				setGen = call
-			}
+		isAdd := func(ins ssa.Instruction) bool {
+			cl, ok := ins.(*ssa.Call)
+			return ok && eng.CalleeName(&cl.Call) == "(*service.ReplayCache).Add"
+		}
+		isSrv := func(ins ssa.Instruction) bool {
+			cl, ok := ins.(*ssa.Call)
+			return ok && eng.MethodName(&cl.Call) == "IsServerSalt"
 		}
 		switch which {
 		case "GATE7":
-			if add == nil {
+			if len(m.adds) == 0 {
 				c.Check("GATE", key+":replay-history-consulted", p.Pos(f.Pos()), false, "the authenticator never consults the replay history")
 				continue
 			}
-			tE, _ := eng.BoolEdges(f, func(v ssa.Value) bool { return v == ssa.Value(add) })
+			g := c.BoolGuard(func(call *ssa.Call) bool { return isAdd(call) }, true)
+			edges := g.Edges(f)
 			for i, r := range m.okRets {
-				c.CheckAt("GATE", fmt.Sprintf("%s:success#%d-needs-new-handshake", key, i), r, len(tE) > 0 && eng.Cut(f, r.Block(), tE), "the authenticator can report success on a path where ReplayCache.Add did not return true (a replayed handshake is served)")
-			}
-			// the Add call is reached on every path from search success unless the salt was server-issued (no other bypass):
-			// every path from the search-success edge to a success return passes Add
-			for _, e := range sortedEdges(m.succ) {
-				ok, bad := eng.MustPassBefore(edgePoint(e), func(ins ssa.Instruction) bool { return ins == ssa.Instruction(add) }, func(ins ssa.Instruction) bool {
-					r, isR := ins.(*ssa.Return)
-					return isR && eng.IsZeroValue(r.Results[len(r.Results)-1])
-				})
-				c.Check("GATE", key+":no-bypass-of-replay-history", blockPos(p, e.To), ok, fmt.Sprintf("a success return at %s is reachable without consulting the replay history", p.IPos(bad)))
+				c.CheckAt("GATE", fmt.Sprintf("%s:success#%d-needs-new-handshake", key, i), r, len(edges) > 0 && eng.Cut(f, r.Block(), edges), "the authenticator can report success on a path where ReplayCache.Add did not return true (a replayed handshake is served)")
 			}
 		case "GATE8":
-			if isSrv == nil {
+			if len(m.isSrvs) == 0 {
 				c.Check("GATE", key+":server-salt-tested", p.Pos(f.Pos()), false, "the authenticator never tests whether the client salt is server-issued")
 				continue
 			}
-			_, fE := eng.BoolEdges(f, func(v ssa.Value) bool { return v == ssa.Value(isSrv) })
+			g := c.BoolGuard(func(call *ssa.Call) bool { return isSrv(call) }, false)
+			edges := g.Edges(f)
 			for i, r := range m.okRets {
-				c.CheckAt("GATE", fmt.Sprintf("%s:success#%d-needs-foreign-salt", key, i), r, len(fE) > 0 && eng.Cut(f, r.Block(), fE), "the authenticator can report success on a path where IsServerSalt did not return false (a reflected server stream is served)")
+				c.CheckAt("GATE", fmt.Sprintf("%s:success#%d-needs-foreign-salt", key, i), r, len(edges) > 0 && eng.Cut(f, r.Block(), edges), "the authenticator can report success on a path where IsServerSalt did not return false (a reflected server stream is served)")
 			}
-			// unconditional: from the search-success edge the test is reached on every path (not dependent on the replay cache or anything else)
-			for _, e := range sortedEdges(m.succ) {
-				ok, bad := eng.MustPass(edgePoint(e), func(ins ssa.Instruction) bool { return ins == ssa.Instruction(isSrv) })
-				c.Check("GATE", key+":server-salt-test-unconditional", blockPos(p, e.To), ok, fmt.Sprintf("after a successful key search the function can finish at %s without having run the server-salt test: the test is conditional (e.g. only when a replay cache is configured)", p.IPos(bad)))
-			}
-			// the test precedes the replay history (a reflected salt must not be recorded or depend on the cache)
-			if add != nil {
-				c.CheckAt("GATE", key+":server-salt-test-before-replay-history", add, eng.Dominates(isSrv, add), "the replay history is consulted before the server-salt test")
+			if len(m.adds) > 0 {
+				ok, bad := m.R.BeforeDeep(isSrv, isAdd)
+				c.Check("GATE", key+":server-salt-test-before-replay-history", p.Pos(f.Pos()), ok, fmt.Sprintf("the replay history can be consulted (%s) before the server-salt test", p.IPos(bad)))
 			}
 		case "INSTALL":
-			if newW == nil {
+			if len(m.newWs) == 0 {
 				c.Undecided("INSTALL", key+":NewWriter", p.Pos(f.Pos()), "the authenticator creates no shadowsocks.Writer")
 				continue
 			}
-			q := func(ins ssa.Instruction) bool {
-				return setGen != nil && ins == ssa.Instruction(setGen) && p.Resolve(setGen.Call.Args[0]) == ssa.Value(newW)
+			isSet := func(ins ssa.Instruction) bool {
+				cl, ok := ins.(*ssa.Call)
+				if !ok || eng.CalleeName(&cl.Call) != "(*sdk/shadowsocks.Writer).SetSaltGenerator" {
+					return false
+				}
+				g, _ := p.AllFrom(cl.Call.Args[0], deepF, func(x ssa.Value) bool { return inCalls(x, m.newWs, 0) })
+				return g
 			}
-			ok, bad := eng.MustPassBefore(eng.After(newW), q, func(ins ssa.Instruction) bool {
-				r, isR := ins.(*ssa.Return)
-				return isR && eng.IsZeroValue(r.Results[len(r.Results)-1])
-			})
-			c.CheckAt("INSTALL", key+":generator-installed-on-response-writer", newW, ok, fmt.Sprintf("a success return at %s is reachable without SetSaltGenerator on the response writer: the server's salts are not marked and cannot be recognised when reflected", p.IPos(bad)))
-			if setGen != nil {
-				okG, bad2 := m.fromEntryField(c, setGen.Call.Args[1], "SaltGenerator")
-				c.CheckAt("INSTALL", key+":generator-of-matched-entry", setGen, okG, "the installed generator is not the matched entry's: "+valsStr(p, bad2))
+			lq := liftMust(c, isSet, nil)
+			for _, e := range sortedEdges(m.succ) {
+				ok, bad := eng.MustPassBefore(edgePoint(e), lq, isSuccessReturn)
+				c.Check("INSTALL", key+":generator-installed-on-response-writer", blockPos(p, e.To), ok, fmt.Sprintf("a success return at %s is reachable without SetSaltGenerator on the response writer: the server's salts are not marked and cannot be recognised when reflected", p.IPos(bad)))
 			}
-			// the wrapped connection returned writes through that writer
+			for _, sg := range m.setGens {
+				okG, bad2 := m.fromEntryField(c, sg.Call.Args[1], "SaltGenerator")
+				c.CheckAt("INSTALL", key+":generator-of-matched-entry", sg, okG, "the installed generator is not the matched entry's: "+valsStr(p, bad2))
+			}
 			for _, r := range m.okRets {
-				okW := p.AnyFrom(r.Results[1], eng.OriginOpts{ThroughConvert: true, ThroughCalls: func(cc *ssa.Call) []ssa.Value {
+				okW := p.AnyFrom(r.Results[1], eng.OriginOpts{ThroughConvert: true, Interproc: true, ThroughCalls: func(cc *ssa.Call) []ssa.Value {
 					if eng.CalleeName(&cc.Call) == "sdk/transport.WrapConn" {
 						return cc.Call.Args
 					}
 					return nil
-				}}, func(x ssa.Value) bool { return x == ssa.Value(newW) })
+				}}, func(x ssa.Value) bool { return inCalls(x, m.newWs, 0) })
 				c.CheckAt("INSTALL", key+":returned-conn-writes-through-that-writer", r, okW, "the connection returned on success does not write through the writer that got the salt generator")
 			}
 		}
